@@ -1,7 +1,7 @@
 """C12 — curve values carry exact sensitivities to their nodes at every derivative order."""
 import re
 import cel, hir, cfg as cfgmod
-from cel import Poly, Rec, Alt, Sym, Tup, Seq, Unsupported
+from cel import Poly, Rec, Alt, Sym, Tup, Seq, Coll, Unsupported
 
 D1, D2 = "dual::dual::Dual", "dual::dual::Dual2"
 VARIANTS = ("F64", "Dual", "Dual2")
@@ -66,15 +66,14 @@ def run(ck, facts, tier):
                     continue
                 el0 = elem_hook(m)
                 k0, v0 = el0.items
-                ok = okres and isinstance(after, Sym) and after.tag[:2] == ("ctor", tgt) and len(after.tag) == 3 and \
-                    isinstance(after.tag[2], Sym) and after.tag[2].tag[0] == "collect"
+                ok = okres and isinstance(after, Sym) and after.tag[:2] == ("ctor", tgt) and len(after.tag) == 3 and isinstance(after.tag[2], Coll)
                 why = "nodes are not rebuilt as NodesTimestamp::%s(collect(..)) with Ok: %s" % (tgt, cel.vfmt(after)[:200])
                 seq = None
                 if ok:
                     # recover the Seq from the evaluator by re-evaluating: the collect key embeds the seq key; compare against the expected element instead
                     want_src = cel.vkey(m)
-                    ck_ = after.tag[2].tag[1]
-                    ok = isinstance(ck_, tuple) and ck_[0] == "seq" and ck_[1] == want_src
+                    ck_ = after.tag[2].seq.key()
+                    ok = ck_[1] == want_src
                     why = "rebuilt nodes do not iterate the stored map"
                 if ok:
                     elem_key, enumerated = ck_[2], ck_[3]
@@ -155,9 +154,9 @@ def run(ck, facts, tier):
             except Unsupported as e:
                 ck.fail(r2, key, "rule could not be established (%s)" % e, where)
                 continue
-            ok = isinstance(res, Sym) and res.tag[:2] == ("ctor", tgt) and isinstance(res.tag[2], Sym) and res.tag[2].tag[0] == "collect"
+            ok = isinstance(res, Sym) and res.tag[:2] == ("ctor", tgt) and isinstance(res.tag[2], Coll)
             if ok:
-                sk = res.tag[2].tag[1]
+                sk = res.tag[2].seq.key()
                 ok = sk[0] == "seq" and sk[1] == cel.vkey(nodes)
                 if ok and tgt != "F64":
                     n = Poly.atom(("len", Sym("m", "keys", cel.vkey(nodes), ()).key(), None))
